@@ -59,7 +59,7 @@ Print Assumptions faulted_object_indistinguishable_from_twin.
    value validator, in the second adapter factory, in a default factory and in a handler;
    then a rejected assignment to the PrototypedFrom attribute, which must leave the link to the prototype intact. *)
 Example faults_fire :
-  let s0 := mkSt 1 (1, 2) [1; 2] [(1, 1)] [1] None None 3 None 7 None (-1) 1%nat [] (-5) None 1 in
+  let s0 := mkSt 1 (1, 2) [1; 2] [(1, 1)] [1] None None 3 None 7 None (-1) 1%nat [] (-5) None 1 None false 1 in
   let h := [(LExtend [4; 5; 6], FaultCall 2 ValueError); (DUpdate [(1, 2); (3, 4)], FaultCall 3 RuntimeError);
             (SetAd 2 3, FaultCall 1 AttributeError); (ReadF, FaultCall 0 TraitError);
             (SetX 5, FaultHandler 1 ValueError); (LAppend 9, NoFault);
